@@ -1,5 +1,6 @@
 import MechVerif.Driver.C20
 import MechVerif.Driver.C07
+import MechVerif.Driver.C15
 open MechVerif.Driver
 
 def dispatch (line : String) : String :=
@@ -7,6 +8,7 @@ def dispatch (line : String) : String :=
   let (m, v, r) :=
     match fields.head? with
     | some "include" => runC20 fields obs
+    | some "range" => runC15 fields obs
     | some "crc" | some "dmg" | some "sweep" | some "rt" | some "instrs" => runC07 fields obs
     | _ => ("bad-proto", "bad-proto", "-")
   m ++ "\t" ++ v ++ "\t" ++ r
